@@ -1066,6 +1066,17 @@ class CallMixin:
                 env[fname] = opt_val(a)
             else:
                 env[fname] = self.coerce(a, c.params[fname], node)
+            v_ = env[fname]
+            if isinstance(v_, Val) and isinstance(v_.sort, ListSort):
+                n_ = z3.simplify(v_.t[0])
+                if z3.is_int_value(n_) and 0 < n_.as_long() <= 4 and not all(z3.is_const(t) for t in v_.t[1:]):
+                    # a short list literal handed to a callee: give it a name and state its elements as ground facts, so that
+                    # the callee's quantified clauses (forall i. ... xs[i] ...) have terms xs[0], xs[1] .. to be instantiated with
+                    nm = self.named(st, v_)
+                    for k_ in range(n_.as_long()):
+                        for na, oa in zip(nm.t[1:], v_.t[1:]):
+                            st.assume(z3.Select(na, k_) == z3.simplify(z3.Select(oa, k_)))
+                    env[fname] = nm
         pre_st = St(env, st.heap, list(st.pc), None, st.ghost)
         # 1. preconditions
         for k_, r in enumerate(c.requires):
